@@ -1145,11 +1145,15 @@ func (d *Data) CopyPropertiesFrom(src datastore.DataService, fs storage.FilterSp
 	}
 
 	// TODO -- Handle mutable data that could be potentially altered by filter.
+	d.mlMu.Lock()
+	d2.mlMu.RLock()
 	d.MaxLabel = make(map[dvid.VersionID]uint64, len(d2.MaxLabel))
 	for k, v := range d2.MaxLabel {
 		d.MaxLabel[k] = v
 	}
 	d.MaxRepoLabel = d2.MaxRepoLabel
+	d2.mlMu.RUnlock()
+	d.mlMu.Unlock()
 
 	d.IndexedLabels = d2.IndexedLabels
 	d.CountLabels = d2.CountLabels
@@ -3474,7 +3478,9 @@ func (d *Data) handleMaxlabel(ctx *datastore.VersionedCtx, w http.ResponseWriter
 	w.Header().Set("Content-Type", "application/json")
 	switch strings.ToLower(r.Method) {
 	case "get":
+		d.mlMu.RLock()
 		maxlabel, ok := d.MaxLabel[ctx.VersionID()]
+		d.mlMu.RUnlock()
 		if !ok {
 			server.BadRequest(w, r, "No maximum label found for %s version %d\n", d.DataName(), ctx.VersionID())
 			return
